@@ -38,6 +38,45 @@ def pin_scene(order, dx2, dy3, pq):
     return ops
 
 
+def aligned_checkpoints_scene(rnd):
+    """connector from the left to a target further right and lower that it has to enter from the left (so the last leg is a z-bend);
+    two or three checkpoints in a row on the line of the source; a second, unrelated connector; one of the 8 symmetries of the square"""
+    y0 = 2 * rnd.randint(1, 4) + 1
+    y1 = y0 + 2 * rnd.randint(3, 8)
+    xs = sorted(rnd.sample(range(3, 30, 2), rnd.randint(2, 3)))
+    if rnd.random() < 0.7:
+        xs[0], xs[-1] = 3, rnd.choice([19, 21, 23, 27])          # first checkpoint near the source, last one far out
+        xs = sorted(set(xs))
+    xd = xs[-1] + 2 * rnd.randint(4, 7)                          # room for the z-bend to be centred between the last checkpoint and the target
+    conns = [(1, y0, 15, xd, y1, 4), (1, y1 + 6, 15, 9, y1 + 10, 15)]
+    cps = [(0, x, y0) for x in xs]
+    shapes = [RC.rect_poly((xd + 4, y0 - 2 if y0 > 2 else 0, xd + 8, y0 + 2))]
+    t = rnd.randint(0, 7)
+    M = 60
+    def tp(x, y):
+        if t & 1: x = M - x
+        if t & 2: y = M - y
+        if t & 4: x, y = y, x
+        return x, y
+    def tm(mask):
+        out = 0
+        for bit, (dx, dy) in ((1, (0, -1)), (2, (0, 1)), (4, (-1, 0)), (8, (1, 0))):
+            if mask & bit:
+                if t & 1: dx = -dx
+                if t & 2: dy = -dy
+                if t & 4: dx, dy = dy, dx
+                out |= 1 if dy < 0 else 2 if dy > 0 else 4 if dx < 0 else 8
+        return out
+    conns = [tp(a, b) + (tm(m1),) + tp(c, e) + (tm(m2),) for a, b, m1, c, e, m2 in conns]
+    cps = [(k,) + tp(x, y) for k, x, y in cps]
+    def tpoly(poly):
+        q = [tp(x, y) for x, y in poly]
+        a2 = sum(q[i][0] * q[(i + 1) % len(q)][1] - q[(i + 1) % len(q)][0] * q[i][1] for i in range(len(q)))
+        return q if a2 > 0 else q[::-1]
+    shapes = [tpoly(sh) for sh in shapes]
+    return {'mode': 1, 'P': rnd.choice([10, 50]), 'buf': 0, 'opts': rnd.randint(0, 127) & ~1, 'shapes': shapes, 'conns': conns, 'cps': cps}
+
+
 def hug_scene(order, dxf, dyo):
     """an obstacle O; connector C joins two pins left of O's right side and has to go round it, hugging that side; connector F leaves a
     pin that lies exactly on the line of that side (dxf = 0) and runs down it for a stretch before turning away"""
@@ -56,6 +95,16 @@ def hug_scene(order, dxf, dyo):
     return ops
 
 
+def cp_scene(x1, x2, xb, dy):
+    """shape A with a pin on its right side, shape B further right and lower with a pin on its left side, a connector between the pins
+    with two checkpoints on the row of A's pin: the first close to A, the second far out.  The z-bend after the second checkpoint is
+    what nudging centres -- between that checkpoint and B, not further back."""
+    ops = [[1, 1, 2, 8, 8, 14], [2, 1, 1, 4, 2, 1, 0, 8, 0],
+           [1, 2, xb, 8 + dy, xb + 6, 14 + dy], [2, 2, 1, 0, 2, 1, 0, 4, 0],
+           [4, 21, 1, 1, 1, 1, 2, 1], [5, 21, 2, x1, 11, x2, 11], [13]]
+    return ops, [[x1, 11], [x2, 11]]
+
+
 def pin_family(d, quick, LS):
     """records (as for the scene families) of pin-attached connectors, replayed through the object-level harness"""
     import itertools
@@ -72,6 +121,14 @@ def pin_family(d, quick, LS):
         for dxf in (0, 2, -2):
             for dyo in ((0,) if quick else (0, 4)):
                 hists.append(hug_scene(order, dxf, dyo)); meta.append(0)
+    cpsof = {}
+    for x1 in (10, 12):
+        for x2 in ((30,) if quick else (26, 30, 34)):
+            for gap in ((16, 24) if quick else (12, 16, 24)):
+                for dy in ((22,) if quick else (14, 22, -22)):
+                    ops, cps = cp_scene(x1, x2, x2 + gap, dy)
+                    cpsof[len(hists)] = cps
+                    hists.append(ops); meta.append(1)          # with a shape buffer: the route turns short of B, and nudging centres that turn
     scen = os.path.join(d, 'pins.txt')
     with open(scen, 'w') as f:
         for h, buf in zip(hists, meta):
@@ -87,7 +144,8 @@ def pin_family(d, quick, LS):
             continue
         sn = snaps[-1]
         recs.append({'thrown': False, 'what': '', 'opts': 0, 'P': 10, 'buf': 2 * buf * LS, 'd': 4 * LS, 'rects': [q[1:] for q in sn['shapes']],
-                     'conns': [{'src': c['src']['p'], 'dst': c['dst']['p'], 'raw': c['raw'], 'disp': c['disp'], 'cps': []} for c in sorted(sn['conns'], key=lambda c: c['id'])]})
+                     'conns': [{'src': c['src']['p'], 'dst': c['dst']['p'], 'raw': c['raw'], 'disp': c['disp'],
+                                'cps': [[p[0] * LS, p[1] * LS] for p in cpsof.get(ex['index'], [])]} for c in sorted(sn['conns'], key=lambda c: c['id'])]})
     return recs
 
 
@@ -117,6 +175,10 @@ def main(tier):
                         break
             s['cps'] = cps
             scenes.append(s)
+    # several checkpoints in the interior of one straight stretch that is followed by a segment nudging may centre (z-bend): the
+    # stretch has to stay long enough for the last of them
+    for _ in range(80 if quick else 3000):
+        scenes.append(aligned_checkpoints_scene(rnd))
     out = RC.run_scenes(hr, d, 'nudge', scenes)
     LS = out['LS']
     recs = []
